@@ -28,7 +28,7 @@ ASSUMPTIONS = [
 SHARD_TIMEOUT = {"quick": 600, "thorough": 3000}
 
 KINDS = ["conn-close", "http10", "http10-te", "refused-400", "refused-431", "short", "short0", "nocl", "raise0", "raise1", "send-fault",
-         "recv-fault", "continue-send-fault"]
+         "recv-fault", "continue-send-fault", "refused-400-head", "raise0-head", "te-plus-empty-cl"]
 FOLLOW = ["one", "two", "partial", "garbage"]
 ARRIVAL = ["same", "next", "after-response", "delay", "during-execution"]
 
@@ -56,6 +56,16 @@ def build(kind, follow, arrival, lookahead, threads, poll, pre, sndbuf=4096):
         M["v"] = "1.0"
     elif kind == "refused-400":
         M = {"raw": "POST /bad HTTP/1.1\r\nHost: h\r\nContent-Length: x\r\n\r\n"}
+    elif kind == "refused-400-head":
+        # the refused message is a HEAD (its error response has no body)
+        M = {"raw": "HEAD /bad HTTP/1.1\r\nHost: h\r\nContent-Length: x\r\n\r\n"}
+    elif kind == "raise0-head":
+        M = {"m": "HEAD", "n": 600, "k": "raise0", "w": 100}
+    elif kind == "te-plus-empty-cl":
+        # Transfer-Encoding together with a Content-Length field (here an empty one): processed or
+        # refused, the connection ends after this message
+        M = {"raw": "POST /r?c=0&i=%d&n=600&k=cl&w=0 HTTP/1.1\r\nHost: h\r\nTransfer-Encoding: chunked\r\nContent-Length:\r\n\r\n"
+                    "3\r\nabc\r\n0\r\n\r\n" % m_index, "refused": True}
     elif kind == "refused-431":
         adj["max_request_header_size"] = 200
         M = {"raw": "GET /big HTTP/1.1\r\nHost: h\r\nX-Pad: " + "p" * 220 + "\r\n\r\n"}
